@@ -93,7 +93,13 @@ def prop(spec, rec):
         require(abs(rate - want_rate) <= 1e-8 + 1e-9 * abs(want_rate), "law_rate", lambda: "returned rate %.12g A, law says %.12g A" % (rate, want_rate))
         require(abs(b.current_charging_power - want_power) <= 1e-11 * (1 + cap * 60 / T) + 1e-9 * abs(want_power), "law_power", lambda: "current_charging_power %.12g kW, law says %.12g" % (b.current_charging_power, want_power))
         if pilot == 0:
-            require(rate == 0 and after == before and b.current_charging_power == 0, "zero_pilot", lambda: "zero pilot delivered rate %r, charge %r -> %r" % (rate, before, after))
+            if before <= cap:
+                require(rate == 0 and after == before and b.current_charging_power == 0, "zero_pilot", lambda: "zero pilot delivered rate %r, charge %r -> %r" % (rate, before, after))
+            else:
+                # the previous step left the charge one rounding error above capacity; the
+                # "power that would exactly fill it" is then a negative rounding error as well
+                require(abs(rate) <= 1e-8 and abs(after - before) <= 1e-8 * V / 1000.0 * T / 60.0 + 1e-12 * cap, "zero_pilot", lambda: "zero pilot delivered rate %r, charge %r -> %r" % (rate, before, after))
+                labels.add("zero_pilot_after_rounding_overshoot")
 
     pilot = spec["pilots"][0]
 
